@@ -52,6 +52,16 @@ impl InputEvent {
         }
     }
 
+    /// The change in nesting depth this event makes: +1 for a start tag, -1 for an
+    /// end tag.
+    pub fn depth_change(&self) -> i32 {
+        match &self.event {
+            Event::Start(_) => 1,
+            Event::End(_) => -1,
+            _ => 0,
+        }
+    }
+
     pub fn is_comment(&self) -> bool {
         matches!(&self.event, Event::Comment(_))
     }
